@@ -368,6 +368,32 @@ def run_item(item):
             except Exception as e:
                 if not is_deliberate(e):
                     viol("C10|error|%s|set_volume|%s" % (type(e).__name__, top_sig(a)), "set_volume/volume raised %s: %s" % (exc_sig(e), str(e)[:120]))
+        # ... and the override survives partial evaluation (C10: "unchanged by partial evaluation", C17: "volume agrees"):
+        # D.set_volume(c); D(theta).volume() == c   and   D.set_volume(f); D(theta).volume() == f(theta)
+        if fv:
+            for th in theta_rows(fv):
+                kw = {v: torch.tensor(float(x)) for v, x in th.items()}
+                for mode in ("number", "function"):
+                    res["evals"] += 1
+                    try:
+                        D4 = Bd.build_tp(a)
+                        v0 = fv[0]
+                        if mode == "number":
+                            D4.set_volume(7.25)
+                            exp = 7.25
+                        else:
+                            D4.set_volume(eval("lambda %s: 2.0 + %s" % (v0, v0)))
+                            exp = 2.0 + float(th[v0])
+                        v = _vol(D4(**kw), Points.empty()).double().reshape(-1)
+                        if len(v) != 1 or not torch.allclose(v, torch.full_like(v, exp)):
+                            viol("C10|set-volume-lost-by-call|%s|%s" % (mode, top_sig(a)),
+                                 "after set_volume(%s) the partial evaluation D(%s).volume() = %s, the user-set volume is %s"
+                                 % ("7.25" if mode == "number" else "lambda %s: 2+%s" % (v0, v0), th, v.tolist(), exp))
+                        else:
+                            res["outcomes"].append("%s|setvol-call|%s|%s" % (name, mode, sorted(th.items())))
+                    except Exception as e:
+                        if not is_deliberate(e):
+                            viol("C10|error|%s|set_volume-call|%s" % (type(e).__name__, top_sig(a)), "set_volume then partial evaluation raised %s: %s" % (exc_sig(e), str(e)[:120]))
         # a user-set volume of an OPERAND enters the composition rule like a computed one
         rule = None
         if a["k"] == "prod" and not (G.free_vars(a["a"]) & {v for v, _ in G.space_vars(a["b"])}):
